@@ -223,14 +223,10 @@ theorem gateFire_gidx (s : State) (ch : Option Int) (ok : Bool) (w : GidxOK s) :
   · exact openCore_gidx _ ch ok hg
 
 theorem retryOpen_gidx (s : State) (ch : Option Int) (ok : Bool) (w : GidxOK s) : GidxOK (retryOpen s ch ok).1 := by
-  unfold retryOpen
-  split
-  · exact w
-  · split
-    · exact w
-    · split
-      · exact w
-      · exact openCore_gidx s ch ok w
+  rcases retryOpen_cases s ch ok with h | h | ⟨_, _, _, _, _, h⟩
+  · rw [h]; exact w
+  · rw [h]; exact w
+  · rw [h]; exact openCore_gidx s ch ok w
 
 -- ------------------------------------------------------------------ arrivals and departures
 
